@@ -79,7 +79,7 @@ def body(chk: Check, *, mc_nodes: int, n_random: int, n_hist: int, hist_len: int
         progs, exp, r = djc.mc_programs("provide", mode, mc_nodes)
         states += r.distinct
         trans += r.generated
-        st = djc.compare_batch(chk, progs, exp, djc.real(progs), f"mc-provide-{mode}")
+        st = djc.compare_sliced(chk, progs, exp, djc.real, f"mc-provide-{mode}")
         chk.add("mc_pages_replayed", len(progs))
         chk.add("mc_zone", st["zone"])
         mid = progs[len(progs) // 2]
@@ -119,7 +119,7 @@ def run(tier: str) -> int:
     if tier == "quick":
         body(chk, mc_nodes=3, n_random=1500, n_hist=40, hist_len=25, deep=3)
     else:
-        body(chk, mc_nodes=4, n_random=20000, n_hist=400, hist_len=40, deep=4)
+        body(chk, mc_nodes=4, n_random=6000, n_hist=200, hist_len=40, deep=4)
     chk.cov["exhaustive"] = True
     chk.cov["rule"] = ("TLC enumerates every page with <= N nodes over the 'provide' alphabet (providers with constant / variable "
                        "kwargs, two keys, loops, consumers with/without default, provider around a slot) x2 modes, replayed; random "
